@@ -24,7 +24,8 @@ import (
 type caseD struct {
 	Sidecar bool                `json:"sidecar"`
 	Key     string              `json:"key"`
-	Puts    []map[string]string `json:"puts"` // the user metadata of successive PUTs of the key
+	Puts    []map[string]string `json:"puts"`           // the user metadata of successive PUTs of the key
+	Tags    []map[string]string `json:"tags,omitempty"` // the tag sets of those PUTs (x-amz-tagging), by position
 }
 
 var enginesD = map[bool]*gw.InProc{}
@@ -56,6 +57,18 @@ func runD(c caseD) error {
 			h = append(h, s3c.KV{K: "x-amz-meta-" + k, V: v})
 		}
 		sort.Slice(h, func(a, b int) bool { return h[a].K < h[b].K })
+		tags := map[string]string{}
+		if i < len(c.Tags) {
+			tags = c.Tags[i]
+		}
+		if len(tags) > 0 {
+			var kv []string
+			for k, v := range tags {
+				kv = append(kv, k+"="+v)
+			}
+			sort.Strings(kv)
+			h = append(h, s3c.KV{K: "x-amz-tagging", V: strings.Join(kv, "&")})
+		}
 		r, err := cl.Call("PUT", path, nil, h, nil)
 		if err != nil {
 			return fmt.Errorf("SETUP: transport: %v", err)
@@ -85,6 +98,22 @@ func runD(c caseD) error {
 				return fmt.Errorf("%s: user metadata reads back as %v, the upload supplied %v (earlier uploads of the key: %v)", where, got, meta, c.Puts[:i])
 			}
 		}
+		tr, err := cl.Call("GET", path, s3c.Q("tagging", ""), nil, nil)
+		if err != nil {
+			return fmt.Errorf("SETUP: transport: %v", err)
+		}
+		gotTags := map[string]string{}
+		var tg s3c.Tagging
+		if tr.OK() && s3c.ParseXML(tr, &tg) == nil {
+			for _, t := range tg.Tags {
+				gotTags[t.Key] = t.Value
+			}
+		} else if !(tr.Status == 404 && tr.Code() == "NoSuchTagSet") {
+			return fmt.Errorf("GetObjectTagging of %q after PUT %d answers %v", c.Key, i+1, tr)
+		}
+		if fmt.Sprint(gotTags) != fmt.Sprint(tags) {
+			return fmt.Errorf("GetObjectTagging of %q after PUT %d of %d: tags read back as %v, the upload supplied %v", c.Key, i+1, len(c.Puts), gotTags, tags)
+		}
 	}
 	return nil
 }
@@ -96,8 +125,9 @@ func TestC01D(t *testing.T) {
 		c.Key = rapid.SampledFrom([]string{"d/", "a/b/", "a/b/c/", "x y/"}).Draw(t, "key")
 		metaGenD := rapid.MapOfN(rapid.SampledFrom([]string{"a", "b", "color", "owner"}), rapid.SampledFrom([]string{"1", "2", "red", ""}), 0, 3)
 		c.Puts = rapid.SliceOfN(metaGenD, 1, 4).Draw(t, "puts")
+		c.Tags = rapid.SliceOfN(rapid.MapOfN(rapid.SampledFrom([]string{"t", "team", "k1"}), rapid.SampledFrom([]string{"1", "blue", "x"}), 0, 2), len(c.Puts), len(c.Puts)).Draw(t, "tags")
 		ev.Trace("C01D", c)
-		ev.Case(fmt.Sprintf("D|%v|%s|%v", c.Sidecar, c.Key, c.Puts), len(c.Puts) > 1, fmt.Sprintf("D:puts=%d", len(c.Puts)), fmt.Sprintf("D:sidecar=%v", c.Sidecar))
+		ev.Case(fmt.Sprintf("D|%v|%s|%v|%v", c.Sidecar, c.Key, c.Puts, c.Tags), len(c.Puts) > 1, fmt.Sprintf("D:puts=%d", len(c.Puts)), fmt.Sprintf("D:sidecar=%v", c.Sidecar))
 		ev.Sample("D", 2, c)
 		if err := runD(c); err != nil {
 			if strings.HasPrefix(err.Error(), "SETUP") {
